@@ -285,7 +285,7 @@ impl C31 {
                 }
             };
             let t1 = observe(&w.reps[r].doc, hs.as_deref()).map_err(|e| fail("reads", "read-inconsistency", e.0.clone()))?;
-            let t2 = observe(&anon, mapped.as_deref()).map_err(|e| fail("anon_reads", &format!("read-inconsistency:{}", sig_of_detail(&e.0)), e.0.clone()))?;
+            let t2 = observe(&anon, mapped.as_deref()).map_err(|e| fail("anon_reads", &read_sig(&e.0), e.0.clone()))?;
             let (s1, s2) = (shape_of(&t1), shape_of(&t2));
             if s1 != s2 {
                 let cls = shape_diff(&s1, &s2);
